@@ -20,10 +20,23 @@ const semicolon = ";" // From grpcinterceptors.go in onos-lib-go
 // TODO replace the following with fine grained RBAC using OpenPolicyAgent Rego in 2021 Q2
 func TemporaryEvaluate(md metautils.NiceMD) error {
 	adminGroups := os.Getenv("ADMINGROUPS")
+	// Requests that carry no authenticated identity (authentication is disabled) are not subject to RBAC
+	if md.Get("name") == "" && md.Get("preferred_username") == "" && md.Get("groups") == "" {
+		return nil
+	}
+	// A group matches only if it is exactly one of the configured administrator groups
+	admins := strings.FieldsFunc(adminGroups, func(r rune) bool {
+		return r == ',' || r == ';' || r == ' '
+	})
 	var match bool
 	for _, g := range strings.Split(md.Get("groups"), semicolon) {
-		if strings.Contains(adminGroups, g) {
-			match = true
+		for _, admin := range admins {
+			if g == admin {
+				match = true
+				break
+			}
+		}
+		if match {
 			break
 		}
 	}
